@@ -98,7 +98,7 @@ def run(ctx: Ctx) -> int:
     r = ctx.tlc("MC_C12", 'SPECIFICATION Spec\nCONSTANT MODE = "macros"\n' + INV, dump=True, name="macro nestings")
     mstates = [s for s in read_dump(r.dump) if not (s["prog"]["k"] == "lit")]
     outer = [("x", celx.enc({"t": "int", "v": 100})), ("y", celx.enc({"t": "int", "v": 200}))]
-    evalx.replay_states(ctx, [(s["prog"], outer, s["exp"]) for s in mstates])
+    evalx.replay_states(ctx, [(s["prog"], [(b[0], b[1]) for b in s["bs"]], s["exp"]) for s in mstates])
     ctx.cov["replayed_macro_programs"] = len(mstates)
     # identifiers whose spelling means something to Python or to the implementation's internals
     r = ctx.tlc("MC_C12", 'SPECIFICATION Spec\nCONSTANT MODE = "idents"\nINVARIANT SpellingIrrelevant\nCHECK_DEADLOCK FALSE\n', dump=True, name="identifier spellings")
